@@ -189,4 +189,90 @@ theorem C08_salsa_short_counterexample_prerepair :
   subst e2
   simp at r
 
+/-- **stream / xor / none round trip**: for every packet of at most `mtuLimit` bytes (the
+xor table's length; salsa20 and none need no bound), in place and out of place in all four
+combinations. -/
+theorem C08_stream_roundtrip (ks : Bytes → Nat → UInt8) (tbl : Bytes) (ht : tbl.length = Gen.mtuLimit)
+    (x d1 d2 : Bytes) (a1 a2 : Bool) (hx : x.length ≤ Gen.mtuLimit)
+    (h1 : x.length ≤ d1.length) (h2 : x.length ≤ d2.length) :
+    RoundTripAt (fun s d a => some (salsaEncrypt ks s d a)) (fun s d a => some (salsaDecrypt ks s d a))
+        x d1 d2 a1 a2 ∧
+    RoundTripAt (fun s d a => some (xorCrypt tbl s d a)) (fun s d a => some (xorCrypt tbl s d a))
+        x d1 d2 a1 a2 ∧
+    RoundTripAt (fun s d a => some (noneCrypt s d a)) (fun s d a => some (noneCrypt s d a))
+        x d1 d2 a1 a2 :=
+  ⟨C08_stream_roundtrip_salsa20 ks x d1 d2 a1 a2 h1 h2,
+   C08_stream_roundtrip_xor tbl x d1 d2 a1 a2 ht hx h1 h2,
+   C08_stream_roundtrip_none x d1 d2 a1 a2 h1 h2⟩
+
+/-! ### AEAD wrapper -/
+
+/-- **AEAD inside the packet buffer.**  Given the two laws of an AEAD (`Seal` adds exactly
+`overhead` bytes; `Open` undoes `Seal` under the same nonce), the wrapper `aeadCrypt.Seal`
+called with a destination prefix `dst` inside a buffer of capacity `cap`
+* returns (no panic) exactly when the sealed packet fits the capacity — so Go's `append` inside
+  `aead.Seal` never reallocates: the result is `dst` followed by the ciphertext and is at most
+  `cap` long — and opening what follows `dst` gives back the plaintext;
+* refuses (panics, `none`) exactly when it would not fit.
+(`dst == nil` is the other refusal of the Go code; sessions pass `buf[:nonceSize]`.) -/
+theorem C08_aead_in_buffer (sealF : Bytes → Bytes → Bytes) (openF : Bytes → Bytes → Option Bytes)
+    (overhead cap : Nat)
+    (hseal : ∀ n p, (sealF n p).length = p.length + overhead)
+    (hopen : ∀ n p, openF n (sealF n p) = some p)
+    (dst nonce pt : Bytes) (hcap : dst.length ≤ cap) :
+    (dst.length + pt.length + overhead ≤ cap →
+      ∃ out, aeadSeal sealF overhead cap dst nonce pt = some out ∧
+        out.length = dst.length + pt.length + overhead ∧ out.length ≤ cap ∧
+        out.take dst.length = dst ∧ openF nonce (out.drop dst.length) = some pt) ∧
+    (cap < dst.length + pt.length + overhead → aeadSeal sealF overhead cap dst nonce pt = none) := by
+  constructor
+  · intro h
+    refine ⟨dst ++ sealF nonce pt, ?_, ?_, ?_, ?_, ?_⟩
+    · simp only [aeadSeal]; rw [if_neg (by omega)]
+    · rw [List.length_append, hseal]; omega
+    · rw [List.length_append, hseal]; omega
+    · rw [List.take_left' rfl]
+    · rw [List.drop_left' rfl, hopen]
+  · intro h
+    simp only [aeadSeal]; rw [if_pos (by omega)]
+
+/-- the way sess.go calls it: `Seal(buf[:ns], buf[:ns], buf[ns:], nil)` on a pooled buffer of
+capacity `mtuLimit`; a packet (nonce + plaintext) of at most `mtuLimit - overhead` bytes —
+which is what `SetMtu` reserves (`mtu -= aead.Overhead()`) — is never refused -/
+theorem C08_aead_session_fits (sealF : Bytes → Bytes → Bytes) (overhead : Nat) (nonce pt : Bytes)
+    (h : nonce.length + pt.length + overhead ≤ Gen.mtuLimit) :
+    aeadSeal sealF overhead Gen.mtuLimit nonce nonce pt = some (nonce ++ sealF nonce pt) := by
+  simp only [aeadSeal]; rw [if_neg (by omega)]
+
+/-! ### non-vacuity -/
+
+theorem C08_toy_blockFn (key : Bytes) (bs : Nat) : BlockFn bs (toyE key) := by
+  intro x hx; simp [toyE, hx]
+
+/-- the hypotheses of the CFB theorems are satisfiable by a non-trivial state: a 301-byte packet
+(2 groups, 2 leftover blocks, 13 tail bytes for 16-byte blocks), separate longer destination -/
+example := C08_enc_unrolled_eq_textbook 16 (Or.inr rfl) (toyE [7, 1]) (C08_toy_blockFn _ _)
+  (List.replicate 301 5) (List.replicate 310 9) false
+  (by rw [List.length_replicate, List.length_replicate]; omega) (by intro h; cases h)
+
+example := C08_dec_unrolled_eq_textbook 8 (Or.inl rfl) (toyE [7, 1]) (C08_toy_blockFn _ _)
+  (List.replicate 301 5) (List.replicate 301 5) true [0xaa] (Nat.le_refl _) (fun _ => rfl)
+
+example : RoundTripAt (encrypt (toyE [3]) 8) (fun s d a => decrypt (toyE [3]) 8 s d a [1, 2])
+    (List.replicate 77 200) (List.replicate 80 1) (List.replicate 77 2) true false :=
+  C08_cfb_roundtrip 8 (Or.inl rfl) (toyE [3]) (C08_toy_blockFn _ _) [1, 2] _ _ _ true false
+    (by rw [List.length_replicate, List.length_replicate]; omega)
+    (by rw [List.length_replicate, List.length_replicate]; omega)
+
+/-- a concrete run of the model (the values the real `encrypt8` produces with the same toy
+cipher are compared on every check by the component `cfb`) -/
+example : (encrypt8 (toyE [1, 2, 3]) [0, 1, 2, 3, 4, 5, 6, 7, 8, 9] [0, 0, 0, 0, 0, 0, 0, 0, 0, 0, 0xee] false).m.dst.length = 11 := by
+  decide
+
+/-- an AEAD satisfying both laws exists (tag = `overhead` zero bytes) -/
+example : ∃ (sealF : Bytes → Bytes → Bytes) (openF : Bytes → Bytes → Option Bytes),
+    (∀ n p, (sealF n p).length = p.length + 16) ∧ (∀ n p, openF n (sealF n p) = some p) :=
+  ⟨fun _ p => p ++ List.replicate 16 0, fun _ c => some (c.take (c.length - 16)),
+    by intro n p; simp, by intro n p; simp⟩
+
 end KcpVerif.Props
